@@ -1,1 +1,4 @@
 import CEProofs.C17
+import CEProofs.C03
+import CEProofs.C04
+import CEProofs.C09
